@@ -246,3 +246,65 @@ func TestZZReplay(t *testing.T) {
 		},
 	})
 }
+
+func init() {
+	// RemoveDiffDisk guards (C11/C12): the base snapshot and a name without metadata must be refused.
+	replayTemplates = append(replayTemplates, replayTemplate{
+		match: func(o *Obligation) bool {
+			return o.Fn == "replica.Replica.RemoveDiffDisk" && (strings.HasPrefix(o.Kind, "callpre:removeDiskNode") || strings.HasPrefix(o.Kind, "callpre:rmDisk") || strings.HasPrefix(o.Kind, "post#refused"))
+		},
+		scripted: true,
+		pkg:      "replica",
+		tags:     "debug",
+		gen: func(o *Obligation, vals map[string]string) (string, bool) {
+			body := `
+func TestZZReplay(t *testing.T) {
+	dir, err := ioutil.TempDir("", "zzreplay")
+	zzMust(t, err)
+	defer os.RemoveAll(dir)
+	r, err := New(true, 4*zzB, zzB, dir, nil, "Backend")
+	zzMust(t, err)
+	defer r.Close()
+	zzMust(t, r.SetReplicaMode("RW"))
+	r.holeDrainer = func() {}
+	_, err = r.WriteAt(zzFill(1, zzB), 0)
+	zzMust(t, err)
+	zzMust(t, r.Snapshot("000", true, "t0"))
+	zzMust(t, r.Snapshot("001", true, "t1"))
+	zzMust(t, r.Snapshot("002", true, "t2"))
+	// chain: head -> snap-002 (latest) -> snap-001 -> snap-000 (base)
+	reproduced := false
+	// (1) a name with no metadata: files <name> and <name>.meta must not be unlinked
+	if err := r.RemoveDiffDisk("volume.meta"); err == nil {
+		if _, serr := os.Stat(dir + "/volume.meta"); serr != nil {
+			t.Logf("RemoveDiffDisk(\"volume.meta\") returned nil and volume.meta is gone: %v", serr)
+			reproduced = true
+		}
+	}
+	// (2) the base snapshot
+	before := len(r.activeDiskData)
+	if err := r.RemoveDiffDisk("volume-snap-000.img"); err == nil {
+		buf := make([]byte, zzB)
+		r.ReadAt(buf, 0)
+		t.Logf("RemoveDiffDisk(base) accepted: chain length %d -> %d, block 0 now reads %d (was 1)", before, len(r.activeDiskData), buf[0])
+		reproduced = true
+	}
+	// (3) head and latest snapshot stay refused
+	if err := r.RemoveDiffDisk(r.info.Head); err == nil {
+		t.Log("head accepted")
+		reproduced = true
+	}
+	if err := r.RemoveDiffDisk(r.info.Parent); err == nil {
+		t.Log("latest snapshot accepted")
+		reproduced = true
+	}
+	if reproduced {
+		t.Fatal("REPLAY-REPRODUCED")
+	}
+	t.Log("REPLAY-NOT-REPRODUCED")
+}
+`
+			return diskPrelude + body, true
+		},
+	})
+}
